@@ -502,14 +502,14 @@ Section RewriteFacts.
   (* how a backticked label is looked up: as a string first, then cast to int *)
   Definition label_resolves (a : string) (l : loc) : Prop :=
     (has (LStr a) = true /\ locate (LStr a) = Ret l) \/
-    (has (LStr a) = false /\ exists z, parse_pyint a = Some z /\ has (LInt z) = true /\ locate (LInt z) = Ret l).
+    (has (LStr a) = false /\ exists z, parse_int_raw a = Some z /\ has (LInt z) = true /\ locate (LInt z) = Ret l).
   Definition label_missing (a : string) : Prop :=
-    has (LStr a) = false /\ (parse_pyint a = None \/ exists z, parse_pyint a = Some z /\ has (LInt z) = false).
+    has (LStr a) = false /\ (parse_int_raw a = None \/ exists z, parse_int_raw a = Some z /\ has (LInt z) = false).
 
   Lemma resolve_index_bt a : has_char ch_tick a = false -> has_char ch_colon a = false ->
     resolve_index (bt a) =
       if has (LStr a) then locate (LStr a)
-      else match parse_pyint a with
+      else match parse_int_raw a with
            | None => Raise KeyError
            | Some z => if has (LInt z) then locate (LInt z) else Raise KeyError
            end.
